@@ -114,11 +114,20 @@ func sinTan(x, u []float64) (sn, tn float64) {
 	return s / nrm, s / c
 }
 
-// hitsIterations runs the documented HITS iteration and returns the number of
-// iterations until both update norms are below tol, or -1 when that takes more
-// than maxIter iterations.
-func hitsIterations(m *model, tol float64, maxIter int) int {
+// hitsSim is the harness's own run of the documented HITS iteration.
+type hitsSim struct {
+	done       bool // both update norms fell below tol/2 within the cap
+	stop       int  // first iteration at which both update norms are below tol
+	borderline bool // some update norm up to that iteration is too close to tol to call
+	hub, auth  []float64
+}
+
+// hitsIterations runs the documented HITS iteration (start from all ones,
+// auth = normalise(A^T hub), hub = normalise(A auth), stop when both 2-norm
+// updates are below tol) for at most maxIter iterations.
+func hitsIterations(m *model, tol float64, maxIter int) hitsSim {
 	n := m.n
+	var sim hitsSim
 	in := make([][]int, n)
 	out := make([][]int, n)
 	for _, e := range m.edges {
@@ -132,46 +141,59 @@ func hitsIterations(m *model, tol float64, maxIter int) int {
 	}
 	na := make([]float64, n)
 	nh := make([]float64, n)
-	// a generous margin: the routine sums in another order, so it may cross
-	// the threshold somewhat later than this simulation
+	near := func(d float64) bool { return math.Abs(d-tol) <= 1e-6*tol+1e-14 }
 	for it := 1; it <= maxIter; it++ {
-		var nrm float64
+		var nrm vk.DD
 		for v := 0; v < n; v++ {
-			var a float64
+			var a vk.DD
 			for _, u := range in[v] {
-				a += hub[u]
+				a.Add(hub[u])
 			}
-			na[v] = a
-			nrm += a * a
+			na[v] = a.Float()
+			nrm.AddProd(na[v], na[v])
 		}
-		nrm = math.Sqrt(nrm)
-		var da float64
+		nr := math.Sqrt(nrm.Float())
+		var da vk.DD
 		for v := range na {
-			na[v] /= nrm
-			da += (na[v] - auth[v]) * (na[v] - auth[v])
+			na[v] /= nr
+			da.AddProd(na[v]-auth[v], na[v]-auth[v])
 		}
 		auth, na = na, auth
-		nrm = 0
+		nrm = vk.DD{}
 		for u := 0; u < n; u++ {
-			var h float64
+			var h vk.DD
 			for _, v := range out[u] {
-				h += auth[v]
+				h.Add(auth[v])
 			}
-			nh[u] = h
-			nrm += h * h
+			nh[u] = h.Float()
+			nrm.AddProd(nh[u], nh[u])
 		}
-		nrm = math.Sqrt(nrm)
-		var dh float64
+		nr = math.Sqrt(nrm.Float())
+		var dh vk.DD
 		for u := range nh {
-			nh[u] /= nrm
-			dh += (nh[u] - hub[u]) * (nh[u] - hub[u])
+			nh[u] /= nr
+			dh.AddProd(nh[u]-hub[u], nh[u]-hub[u])
 		}
 		hub, nh = nh, hub
-		if math.Sqrt(da) < tol/2 && math.Sqrt(dh) < tol/2 {
-			return it
+		dan, dhn := math.Sqrt(da.Float()), math.Sqrt(dh.Float())
+		if sim.stop == 0 {
+			if near(dan) || near(dhn) {
+				sim.borderline = true
+			}
+			if dan < tol && dhn < tol {
+				sim.stop = it
+				sim.hub = append([]float64(nil), hub...)
+				sim.auth = append([]float64(nil), auth...)
+			}
+		}
+		// the routine sums in another order, so it may cross the threshold a
+		// little later than this simulation: require a margin of two
+		if dan < tol/2 && dhn < tol/2 {
+			sim.done = true
+			return sim
 		}
 	}
-	return -1
+	return sim
 }
 
 func checkHITS(c hitsCase) *vk.Failure {
@@ -190,8 +212,10 @@ func checkHITS(c hitsCase) *vk.Failure {
 	// harness runs the documented iteration itself with an iteration cap and
 	// does not call the routine on cases that are merely slow, so that the hang
 	// watchdog only sees genuine non-termination.
+	var sim hitsSim
 	if len(m.edges) > 0 {
-		if it := hitsIterations(m, tol, 30000000/(len(m.edges)+n)); it < 0 {
+		sim = hitsIterations(m, tol, 10000000/(len(m.edges)+n))
+		if !sim.done {
 			vk.Class("hits:skipped-slow-convergence")
 			return nil
 		}
@@ -278,6 +302,20 @@ func checkHITS(c hitsCase) *vk.Failure {
 	}
 	if dn, lim := math.Sqrt(diff.Float()), 2*normA*tol/zn+32*fn*vk.Eps; dn > lim {
 		return vk.Failf("hits-fixed-point", "tol=%v: ||auth - normalize(A^T hub)||_2 = %g exceeds 2||A||tol/||A^T hub|| = %g", tol, dn, lim)
+	}
+	// The documented iteration itself: unless an update norm came too close to
+	// tol to call, the routine stops at the same iteration as the harness's run
+	// and returns that iterate (rounding differences do not grow: every step
+	// renormalises and contracts towards the principal eigenvector).
+	if sim.borderline {
+		vk.Class("hits:stop-borderline")
+	} else {
+		lim := 1e-9 + 8*float64(sim.stop)*fn*vk.Eps
+		for i := range h {
+			if math.Abs(h[i]-sim.hub[i]) > lim || math.Abs(a[i]-sim.auth[i]) > lim {
+				return vk.Failf("hits-documented-iteration", "tol=%v node %d: hub %v authority %v; the documented iteration started from all ones stops after %d iterations at hub %v authority %v", tol, i, h[i], a[i], sim.stop, sim.hub[i], sim.auth[i])
+			}
+		}
 	}
 	// Comparison with the principal eigenvectors when the top eigenvalue of
 	// A A^T is simple. With rho = lambda2/lambda1 and t0 the tangent of the
